@@ -36,6 +36,7 @@ func TestC07(t *testing.T) {
 		return info.Returned || info.EmitNotLast
 	}
 	o := lexgen.Opts{MaxModes: 3, ModeActs: true, Frags: true, Macros: false, ShuffleAct: true, Depth: 2, MaxRules: 4, RepeatPop: true}
+	lexcheck.AfterErrors = true // the statement about push / pop does not end at the first lexical error
 	lexcheck.RunCheck(run, o, 320, 5000, 40, classify, nil)
 	if run.Replay == "" && run.Violations() == 0 {
 		run.RequireClass("depth>=2-and-returned", 20)
